@@ -9,8 +9,10 @@ import (
 )
 
 var table = map[string]func(tier string) int{
+	"C01": schecks.C01,
 	"C12": schecks.C12,
 	"C13": schecks.C13,
+	"C14": schecks.C14,
 	"C18": schecks.C18,
 }
 
